@@ -30,9 +30,28 @@ if walk != 'normal':
     os.walk = patched
 from protocol_code_generator.generate.code_generator import ProtocolCodeGenerator
 buf = io.StringIO()
+reuse = os.environ.get('VERIF_REUSE', '')
 try:
     with contextlib.redirect_stdout(buf):
-        ProtocolCodeGenerator(Path(xml)).generate(Path(out))
+        g = ProtocolCodeGenerator(Path(xml))
+        if reuse == 'after-failure':
+            # the same generator object: a run that fails on a broken file, the file is repaired, the run is repeated
+            victim = os.path.join(xml, 'pub', 'protocol.xml')
+            good = open(victim, encoding='utf-8').read()
+            with open(victim, 'w', encoding='utf-8') as f:
+                f.write(good.replace('</protocol>', '<struct name="BrokenForNow"><field name="a" type="NoSuchType"/></struct></protocol>'))
+            try:
+                g.generate(Path(out))
+                print("FAILED the broken tree was accepted")
+            except BaseException:
+                pass
+            with open(victim, 'w', encoding='utf-8') as f:
+                f.write(good)
+            import shutil
+            shutil.rmtree(out, ignore_errors=True)
+        elif reuse == 'twice':
+            g.generate(Path(out))
+        g.generate(Path(out))
     print("GENERATED")
 except BaseException as e:
     print(f"FAILED {type(e).__name__}: {e}")
